@@ -649,6 +649,37 @@ def install():
     def _has_column(interp, args, kwargs, node, frame):
         return args[1] in args[0].cells
 
+    @libmodels.api("renamed")
+    def _renamed(interp, args, kwargs, node, frame):
+        """copy of a term in which every input symbol whose name starts with the prefix is replaced by a fresh twin
+        (the same twin for every call in this run): the 'second run' of a non-interference argument"""
+        term, prefix = args
+        if not is_z3(term):
+            return term
+        cache = interp.run.__dict__.setdefault("_twin_cache", {})
+        subs = []
+        seen, stack = set(), [term]
+        while stack:
+            e = stack.pop()
+            if e.get_id() in seen:
+                continue
+            seen.add(e.get_id())
+            if z3.is_const(e) and e.decl().kind() == z3.Z3_OP_UNINTERPRETED and e.decl().name().startswith(prefix):
+                nm = e.decl().name()
+                if nm not in cache:
+                    cache[nm] = z3.Const(nm + "'", e.sort())
+                subs.append((e, cache[nm]))
+            stack.extend(e.children())
+        return z3.substitute(term, *subs) if subs else term
+
+    @libmodels.api("path_depends_on")
+    def _path_depends_on(interp, args, kwargs, node, frame):
+        prefix = args[0]
+        for c in interp.run.__dict__.get("branch_conds", []):
+            if _depends_on(interp, [c, prefix], {}, node, frame):
+                return True
+        return False
+
     @libmodels.api("depends_on")
     def _depends_on(interp, args, kwargs, node, frame):
         """does the z3 term mention an input symbol whose name starts with the given prefix?"""
